@@ -238,6 +238,7 @@ static std::string run_history(const std::string &line, int wfd)
     std::unique_ptr<LLVMDoubleVisitor> fresh; // same (opt, cse) on a fresh object
     std::unique_ptr<LLVMDoubleVisitor> loaded; // dumps() / loads()
     std::unique_ptr<LambdaRealDoubleVisitor> lam;
+    std::unique_ptr<LambdaRealDoubleVisitor> lam_cse; // the same reference with cse = true: isolates defects of cse() itself (C37)
     std::unique_ptr<LLVMFloatVisitor> fvis;       // the float evaluator (testing only)
 #ifdef SYMENGINE_HAVE_LLVM_LONG_DOUBLE
     std::unique_ptr<LLVMLongDoubleVisitor> lvis;  // the long double evaluator (testing only; needs MPFR for rationals/constants)
@@ -326,6 +327,7 @@ static std::string run_history(const std::string &line, int wfd)
             fresh.reset();
             loaded.reset();
             lam.reset();
+            lam_cse.reset();
             fvis.reset();
 #ifdef SYMENGINE_HAVE_LLVM_LONG_DOUBLE
             lvis.reset();
@@ -370,6 +372,12 @@ static std::string run_history(const std::string &line, int wfd)
                     lam->init(io.ins, io.outs, false);
                 } catch (...) {
                     lam.reset();
+                }
+                try {
+                    lam_cse.reset(new LambdaRealDoubleVisitor());
+                    lam_cse->init(io.ins, io.outs, true);
+                } catch (...) {
+                    lam_cse.reset();
                 }
                 try {
                     fvis.reset(new LLVMFloatVisitor());
@@ -457,9 +465,23 @@ static std::string run_history(const std::string &line, int wfd)
                 double tol = 64 * spread[i] + 1e-9 * std::fabs(b) + 1e-300;
                 return std::fabs(a - b) <= tol || ulp_dist(a, b) <= 8;
             };
+            // is the result of cse() faithful here?  (the lambda visitor with and without cse agree)
+            std::vector<bool> cse_ok(nout, true);
+            if (have_ref && lam_cse) {
+                try {
+                    std::vector<double> in(inp), rc(nout, 0.0);
+                    if (in.empty())
+                        in.push_back(0.0);
+                    lam_cse->call(rc.data(), in.data());
+                    for (size_t i = 0; i < nout; i++)
+                        if (!close(rc[i], ref[i], i))
+                            cse_ok[i] = false;
+                } catch (...) {
+                }
+            }
             if (have_ref) {
                 for (size_t i = 0; i < nout; i++)
-                    if (!std::isnan(ref[i]) && !close(outs[i], ref[i], i)) // a NaN reference: the output has no value there
+                    if (!std::isnan(ref[i]) && (!last.cse || cse_ok[i]) && !close(outs[i], ref[i], i)) // a NaN reference: the output has no value there
                         oracle += " value(output " + std::to_string(i) + ": llvm " + dblbits(outs[i]) + " lambda " + dblbits(ref[i]) + ")";
             }
             // the float / long double evaluators: loose agreement with the double one (testing); the sensitivity of the
@@ -491,6 +513,8 @@ static std::string run_history(const std::string &line, int wfd)
                 auto loose = [&](double a, double b, size_t i, double eps, const std::vector<double> &sp) {
                     if (std::isnan(a) || std::isnan(b) || std::isinf(a) || std::isinf(b) || std::isinf(sp[i]) || std::isnan(ref[i]))
                         return true;
+                    if (sp[i] > 1e-3 * (std::fabs(ref[i]) + 1e-300) || !cse_ok[i])
+                        return true; // near a pole / cancellation: no claim
                     double tol = 1e3 * eps * (1.0 + std::fabs(b)) + 1e3 * sp[i];
                     return std::fabs(a - b) <= tol;
                 };
@@ -530,6 +554,8 @@ static std::string run_history(const std::string &line, int wfd)
                         if (ulp_dist(ov[i], outs[i]) > 16)
                             oracle += " optlevel(output " + std::to_string(i) + ": opt " + std::to_string(last.opt) + " gives "
                                       + dblbits(outs[i]) + ", opt " + std::to_string(va.opt) + " " + dblbits(ov[i]) + ")";
+                    } else if (!cse_ok[i]) {
+                        continue; // cse() itself changed the value of this output (C37's business)
                     } else if (have_ref ? !close(ov[i], outs[i], i) : ulp_dist(ov[i], outs[i]) > 64) {
                         oracle += " cse(output " + std::to_string(i) + ": cse " + std::to_string(last.cse) + " gives " + dblbits(outs[i])
                                   + ", cse " + std::to_string(va.cse) + " opt " + std::to_string(va.opt) + " " + dblbits(ov[i]) + ")";
